@@ -248,7 +248,8 @@ STYLE_ELEMS = ["span1", "p1", "text1", "br1", "r1"]
 # deep style family: per property the values that are near it (valid, near misses, a foreign type, removal); the full
 # property x value cross product is the style-table family
 STYLE_MENU = {
-  "FontFamily": ["ff_ok", "ff_one", "ff_bad_int", "ff_bad_mixed", "ff_list", "junkstr", "NONE"],
+  "FontFamily": ["ff_ok", "ff_one", "ff_bad_int", "ff_bad_mixed", "ff_empty", "ff_empty_name", "ff_list", "junkstr", "NONE"],
+  "Padding": ["padding", "padding_bad_member", "NONE"],
   "Color": ["color", "color2", "junkstr", "NONE"],
   "LineHeight": ["special_normal", "special_none", "len_pct", "junkstr", "NONE"],
   "NOPROP": ["color", "NONE"],
